@@ -1502,6 +1502,10 @@ func (is *iterScanner) Next() bool {
 }
 
 func scanColumn(p []byte, col ColumnInfo, dest []interface{}) (int, error) {
+	if len(dest) == 0 {
+		// a tuple column without elements takes no scan target
+		return 0, nil
+	}
 	if dest[0] == nil {
 		return 1, nil
 	}
